@@ -1,8 +1,8 @@
 (* C14 - H265.  Header accessors decode every field exactly (complete enumerations lifted to
-   statements); the payloader / parser round trip for AddDONL off (C14_lossless_partial, everything
-   outside KF-C14-lone-fu); the parser against an independent RFC 7798 encoder for every form with and
+   statements); the payloader / parser round trip for AddDONL off (C14_lossless_partial: every
+   sequence of valid units, every MTU 4..65535); the parser against an independent RFC 7798 encoder for every form with and
    without DONL (C14_parse_forms, C14_paci_tsci) and its refusal of every truncation that cuts into
-   the structure the form requires (C14_parse_truncated); the two known findings as witnesses. *)
+   the structure the form requires (C14_parse_truncated); the open known finding (DONL in every FU) as a witness. *)
 From Coq Require Import ZArith List.
 From RTP Require Import Base.Bits Base.Res Model.H265 Proofs.C14_Accessors Proofs.C09_Total.
 Open Scope Z_scope.
@@ -122,8 +122,8 @@ Print Assumptions C14_aggregation_parses.
 (* ---- composition: a whole Payload call (AddDONL off, any SkipAggregation setting, MTU >= 4):
    every packet parses, and RFC 7798 reassembly of the parsed packets (single NAL unit packets,
    aggregation packets, FU runs from S to E) returns exactly the units of the input, in order.
-   unit_ok: F = 0, type below 48, at least one payload byte - of any length - and not
-   exactly MTU-1 bytes long (KF-C14-lone-fu).  AddDONL on is KF-C14-donl-every-fu. ---- *)
+   unit_ok: F = 0, type below 48, at least one payload byte - of any length (units of exactly MTU-1
+   bytes included since repair D12).  AddDONL on with a fragmented unit is KF-C14-donl-every-fu. ---- *)
 From RTP Require Import Proofs.C14_Lossless Model.AnnexB.
 
 Theorem C14_lossless_partial : forall mtu st x l, 4 <= mtu <= 65535 -> h5_donl_on st = false ->
@@ -226,22 +226,18 @@ Proof.
   vm_compute. repeat (constructor; try (vm_compute; intuition (try lia; try discriminate))).
 Qed.
 
-(* ---- the two known findings, as witnesses evaluated on the model (vm_compute); the same inputs
-   replayed on the implementation give the same bytes (corpus/C14.cases) ---- *)
-(* KF-C14-lone-fu: a NAL unit of MTU-1 bytes becomes a single fragmentation unit with S set and
-   E clear, which no receiver completes. *)
-Theorem C14_lossless_refuted_lone_fu :
-  exists st mtu au f, h265_payload st mtu (Some au) = Ok (st, [Own f]) /\
-    match h265_unmarshal false (Some f) with
-    | Ok (PFu _ fuh _ _) => fu_s fuh = true /\ fu_e fuh = false
-    | _ => False
-    end.
-Proof.
-  exists (mkH265Pay false false 0), 10, [0; 0; 0; 1; 2; 1; 10; 11; 12; 13; 14; 15; 16],
-         [98; 1; 129; 10; 11; 12; 13; 14; 15; 16].
-  split; vm_compute; [reflexivity|split; reflexivity].
-Qed.
-Print Assumptions C14_lossless_refuted_lone_fu.
+(* ---- the open known finding, as a witness evaluated on the model (vm_compute); the same input
+   replayed on the implementation gives the same bytes (corpus/C14.cases) ---- *)
+(* The former KF-C14-lone-fu (D12), repaired in /repo: a NAL unit of MTU-1 bytes, which the fits
+   test sends to the fragmentation branch although its payload fills exactly one fragment, used to
+   become a single FU with S set and E clear; it is now sent whole as a single NAL unit packet
+   (and C14_lossless_partial no longer excludes it). *)
+Example C14_lone_fu_repaired :
+  h265_payload (mkH265Pay false false 0) 10 (Some [0; 0; 0; 1; 2; 1; 10; 11; 12; 13; 14; 15; 16])
+  = Ok (mkH265Pay false false 0, [Own [2; 1; 10; 11; 12; 13; 14; 15; 16]]) /\
+  h265_payload (mkH265Pay true false 5) 10 (Some [0; 0; 0; 1; 2; 1; 10; 11; 12; 13; 14])
+  = Ok (mkH265Pay true false 6, [Own [2; 1; 0; 5; 10; 11; 12; 13; 14]]).
+Proof. split; vm_compute; reflexivity. Qed.
 
 (* KF-C14-donl-every-fu: with AddDONL every fragment carries a DONL field; H265Packet (and
    RFC 7798) read it in the first fragment only, so the payload of the second fragment decodes
